@@ -1,11 +1,9 @@
 /* leaf proofs of co_domain.c; -include'd in front of the TU. -DVW_OP=0..4 (Size,Read,Write,Init,Reset) */
 #include "vw_defs.h"
-extern uint8_t H_BK0, H_DK0;
 #include "domain.h"
 #include <stdlib.h>
 _Bool H_NULLDATA;
 uint32_t H_DOMSZ;
-uint8_t H_BK0, H_DK0;   /* snapshots of old(H_BUF[G_K]) / old(Start[G_K]) */
 void harness(void)
 {
     /* pointer topology by assignment; sizes symbolic (no bound other than the address space) */
